@@ -2,11 +2,14 @@ SPECIFICATION Spec
 CONSTANTS
   MaxLen = 4
   MaxLenCheap = 4
+  KindLen = 3
   InitAll = TRUE
   BugNextArgNoSkip = FALSE
   BugUseFlagAll = FALSE
   BugOptionalOrigState = FALSE
   BugNames = "none"
+  BugMissingIsOther = FALSE
+  BugUsage = "none"
 VIEW View
-INVARIANTS TypeOK FamilyTerminates ConsumedExactlyOnce OptionValueNotPositional FlagNeverFails HelpLaw SuccessLeavesNothing
+INVARIANTS TypeOK FamilyTerminates ConsumedExactlyOnce OptionValueNotPositional FlagNeverFails HelpLaw SuccessLeavesNothing ErrorKindLaw UsageModelOK
 CHECK_DEADLOCK FALSE
